@@ -7,9 +7,10 @@ pub mod c04;
 pub mod rules;
 pub mod c08;
 pub mod c10;
+pub mod c11;
 
 pub fn ids() -> Vec<&'static str> {
-    vec!["C01", "C02", "C04", "C08", "C10"]
+    vec!["C01", "C02", "C04", "C08", "C10", "C11"]
 }
 
 pub fn get(id: &str, ctx: &Ctx) -> Option<PropertyDef> {
@@ -19,6 +20,7 @@ pub fn get(id: &str, ctx: &Ctx) -> Option<PropertyDef> {
         "C04" => c04::def(ctx),
         "C08" => c08::def(ctx),
         "C10" => c10::def(ctx),
+        "C11" => c11::def(ctx),
         _ => return None,
     })
 }
